@@ -19,7 +19,7 @@ type Case struct {
 	Planted *Program `json:"planted,omitempty"`
 	Plant   string   `json:"plant,omitempty"`
 	Path    string   `json:"path,omitempty"`
-	Raw     *string  `json:"raw,omitempty"`
+	Raw     *mon.Str `json:"raw,omitempty"`
 	Params  int      `json:"params,omitempty"`
 }
 
@@ -69,7 +69,8 @@ func generate(w *mon.W) {
 	}
 	// (i) either/or on hostile inputs
 	do := func(s string, pm int) {
-		c := &Case{Raw: &s, Params: pm}
+		ms := mon.Str(s)
+		c := &Case{Raw: &ms, Params: pm}
 		w.Do(fmt.Sprint("r|", pm, "|", s), func(r *mon.R) { Check(c, r) })
 	}
 	for _, size := range []int{64, 1024} {
@@ -186,9 +187,16 @@ func plant(p *Program, kind string, rng *rand.Rand) (*Program, string) {
 	case "leftright":
 		side := []string{"$left", "$right"}[rng.Intn(2)]
 		var bad *E
-		if rng.Intn(4) == 0 {
+		switch rng.Intn(7) {
+		case 0:
 			bad = Name(side)
-		} else {
+		case 1:
+			bad = Name("a", side)
+		case 2:
+			bad = Name("a", "b", side)
+		case 3:
+			bad = Name(side, "x", "y")
+		default:
 			bad = Name(side, "k")
 		}
 		return exprPlant(bad, func(s gen.Slot) bool { return !s.InJoinCond }, "leftright:"+side)
@@ -306,7 +314,7 @@ func eitherOr(what, src string, sql string, err error, r *mon.R) bool {
 func Check(c *Case, r *mon.R) {
 	r.Case = c
 	if c.Raw != nil {
-		src := *c.Raw
+		src := string(*c.Raw)
 		sql, err, o := mon.Compile(src, gen.ParamMaps[c.Params%len(gen.ParamMaps)])
 		if o.Anomalous() {
 			r.Inconclusive("foreign_compile_anomaly")
@@ -356,6 +364,25 @@ func Check(c *Case, r *mon.R) {
 	slot := strings.SplitN(ctx, "/", 2)[0]
 	if i := strings.LastIndex(ctx, ".right/"); i >= 0 {
 		slot = "join.right/" + strings.SplitN(ctx[i+7:], "/", 2)[0]
+	}
+	// a failed compilation must leave nothing behind: a let of the rejected
+	// program is not a binding in the next one
+	for _, st := range c.Planted.Stmts {
+		if st.LetName == nil {
+			continue
+		}
+		probe := "let zz_probe = " + st.LetName.Name + "; T | take 1"
+		psql, perr, po := mon.Compile(probe, nil)
+		if po.Anomalous() {
+			r.Inconclusive("foreign_compile_anomaly")
+			return
+		}
+		if perr == nil {
+			r.Violation("", "after Compile(%q) failed, Compile(%q) succeeds with %q: the let value refers to %q, which is neither a constant nor an earlier binding of that program", src, probe, psql, st.LetName.Name)
+			return
+		}
+		r.Count("leak_probes", 1)
+		break
 	}
 	r.SetAdd("plant_contexts", kindOf+"@"+slot)
 	r.SetAdd("plants", strings.SplitN(c.Path, "@", 2)[0])
